@@ -15,7 +15,7 @@ INFO = {
     "outside": ["trees outside the corpus", "string values longer than the bound", "hex/float spellings outside the candidate lists", "histories longer than two generations"],
     "stubs": ["memfs: in-memory file system behind esp_kconfiglib.core's open/os/exists/islink (universal newlines on read modelled)", "report recorder: KconfigReport.add_record of the loading instance replaced by a recorder (records are hashed into sets, which would realise symbolic strings)"],
 }
-BUDGET = {"quick": 200, "thorough": 1100}
+BUDGET = {"quick": 200, "thorough": 800}
 
 CONF = "/m/sdkconfig"
 
